@@ -472,7 +472,12 @@ def rule_insert_reaches_store(db: ProgramDB) -> List[Instance]:
     loops = [nd for nd in cfg.nodes if nd.kind == "for" and "keys" in unparse(nd.stmt.iter)]
     if not loops:
         raise AnalysisError("IndexedCache.insert: loop over the keys not found")
-    ev = AbsEval(db, m, cfg)
+    def attr_hook(e, st, ev_):
+        # a key list that is not empty: with no keys there is no leaf, and leaving early is the same as not looping
+        if isinstance(e, ast.Attribute) and isinstance(e.value, ast.Name) and e.value.id == "self" and e.attr in ("keys", "_keys"):
+            return ("obj", "truthy")
+        return None
+    ev = AbsEval(db, m, cfg, attr_hook=attr_hook)
     ip = "index" if "index" in m.params else None
     init = State({ip: TRUE}) if ip else State({})
     p = ev.explore([(cfg.entry, init)], lambda nd: nd.kind in ("return", "exit"), blocked=lambda nd: nd.id == loops[0].id, kinds=("n",))
